@@ -224,13 +224,6 @@ def expected_sql(E, frag):
         "SELECT node FROM step WHERE node = ? UNION ALL SELECT i FROM node JOIN check_with_products "
         "ON node.creator = check_with_products.node WHERE node.kind = 'step') "
         "SELECT node FROM check_with_products) AS cwp WHERE step.node = cwp.node")
-    x["RECURSIVE_CHECK_AFTER_SOURCES"] = (
-        "UPDATE step SET _check_after = 1 FROM (WITH RECURSIVE subtree(node) AS ("
-        "SELECT node FROM step WHERE node = ? UNION ALL SELECT i FROM node JOIN subtree "
-        "ON node.creator = subtree.node WHERE node.kind = 'step') "
-        "SELECT DISTINCT dep2.source AS node FROM subtree JOIN dependency AS dep1 ON dep1.sink = subtree.node "
-        "JOIN dependency AS dep2 ON dep2.sink = dep1.source JOIN node AS source_node ON source_node.i = dep2.source "
-        "WHERE source_node.kind = 'step' AND NOT source_node.detached) AS sup WHERE step.node = sup.node")
     x["RECONCILE_TARGET_DIRS"] = (
         "UPDATE step SET _check_after = 1 WHERE node IN (SELECT depo.source FROM target_dir "
         "CROSS JOIN node AS onode ON (onode.kind = 'file' AND onode.label >= target_dir.path "
@@ -252,6 +245,70 @@ def expected_sql(E, frag):
         f"UPDATE file SET state = {FS.PLANNED.value}, hash = NULL FROM optional_to_be_deleted "
         f"WHERE file.node = optional_to_be_deleted.i AND file.state != {FS.VOLATILE.value}")
     return {k: norm_sql(v) for k, v in x.items()}
+
+
+# ---------------------------------------------------------------------------------------------
+# RECURSIVE_CHECK_AFTER_SOURCES (Step.detach): translated, not pinned
+# ---------------------------------------------------------------------------------------------
+
+CAS_HEAD = (
+    "UPDATE step SET _check_after = 1 FROM (WITH RECURSIVE subtree(node) AS ("
+    "SELECT node FROM step WHERE node = ? UNION ALL SELECT i FROM node JOIN subtree "
+    "ON node.creator = subtree.node WHERE node.kind = 'step') "
+    "SELECT DISTINCT dep2.source AS node FROM subtree JOIN dependency AS dep1 ON dep1.sink = subtree.node "
+    "JOIN dependency AS dep2 ON dep2.sink = dep1.source JOIN node AS source_node ON source_node.i = dep2.source "
+    "WHERE ")
+CAS_TAIL = ") AS sup WHERE step.node = sup.node"
+# conjuncts of the WHERE clause that selects the source steps -> atom of the model (Sched.cas_atom_holds)
+CAS_ATOMS = [
+    (r"source_node\.kind = 'step'", "CasSrcIsStep"),
+    (r"NOT source_node\.detached", "CasSrcAttached"),
+    # "leave a producer alone while another attached node still consumes the file"
+    (r"NOT EXISTS \(SELECT 1 FROM dependency AS (\w+) JOIN node AS (\w+) ON \2\.i = \1\.sink "
+     r"WHERE \1\.source = dep1\.source AND NOT \2\.detached\)", "CasNoOtherAttachedConsumer"),
+    # "... while any other edge leaves the file"
+    (r"NOT EXISTS \(SELECT 1 FROM dependency AS (\w+) WHERE \1\.source = dep1\.source "
+     r"AND \1\.sink (?:!=|<>) dep1\.sink\)", "CasNoOtherConsumer"),
+]
+
+
+def split_top_and(text: str) -> list[str]:
+    """Split a boolean SQL text at the ANDs that are not inside parentheses."""
+    parts, depth, cur, i = [], 0, [], 0
+    while i < len(text):
+        c = text[i]
+        if c == "(":
+            depth += 1
+        elif c == ")":
+            depth -= 1
+        if depth == 0 and text[i:i + 5] == " AND ":
+            parts.append("".join(cur).strip())
+            cur, i = [], i + 5
+            continue
+        cur.append(c)
+        i += 1
+    parts.append("".join(cur).strip())
+    return parts
+
+
+def parse_check_after_sources(sql: str) -> list[str]:
+    """The query that Step.detach runs to flag the producers two dependency hops upstream of the detached step
+    subtree.  The frame (recursive subtree over step products, two joins over dependency, UPDATE of _check_after)
+    is compared literally; the WHERE clause that selects the source nodes is translated conjunct by conjunct into
+    atoms the model interprets (any other conjunct: fail closed)."""
+    text = norm_sql(sql)
+    if not (text.startswith(CAS_HEAD) and text.endswith(CAS_TAIL)):
+        raise TranslatorError("SQL constant RECURSIVE_CHECK_AFTER_SOURCES: frame differs from the shape the model re-expresses")
+    where = text[len(CAS_HEAD):len(text) - len(CAS_TAIL)]
+    atoms = []
+    for conj in split_top_and(where):
+        for pat, atom in CAS_ATOMS:
+            if re.fullmatch(pat, conj):
+                atoms.append(atom)
+                break
+        else:
+            raise TranslatorError(f"RECURSIVE_CHECK_AFTER_SOURCES: WHERE conjunct not recognised: {conj!r}")
+    return atoms
 
 
 # ---------------------------------------------------------------------------------------------
@@ -551,7 +608,6 @@ def generate():
         "RECOMPUTE_READY": _const(SC, "RECOMPUTE_READY"), "RESOURCE_UNAVAILABLE": _const(SC, "RESOURCE_UNAVAILABLE"),
         "SELECT_NEXT_STEP": _const(SC, "SELECT_NEXT_STEP"),
         "RECURSIVE_CHECK_WITH_PRODUCTS": _const(ST, "RECURSIVE_CHECK_WITH_PRODUCTS"),
-        "RECURSIVE_CHECK_AFTER_SOURCES": _const(ST, "RECURSIVE_CHECK_AFTER_SOURCES"),
         "RECONCILE_TARGET_DIRS": _const(WF, "RECONCILE_TARGET_DIRS"),
         "CREATE_OPTIONAL_STEP_TABLE": _const(FI, "CREATE_OPTIONAL_STEP_TABLE"),
         "CREATE_OPTIONAL_TO_BE_DELETED_TABLE": _const(FI, "CREATE_OPTIONAL_TO_BE_DELETED_TABLE"),
@@ -570,6 +626,8 @@ def generate():
     else:
         raise TranslatorError("SQL constant FILL_SAFE_UPDATE differs from both shapes the model re-expresses")
     facts["safe_merge"] = merge
+    cas = parse_check_after_sources(_const(ST, "RECURSIVE_CHECK_AFTER_SOURCES"))
+    facts["check_after_sources_where"] = cas
 
     trg = parse_triggers(_const(ST, "STEP_SCHEMA"))
 
@@ -672,6 +730,10 @@ def generate():
     for tname, cname in names.items():
         items = "; ".join(f"({a}, {b})" for a, b in flags[tname])
         o.append(f"Definition {cname} : list (flagcol * ttarget) := [{items}].  (* {tname} *)")
+    o.append("(* step.RECURSIVE_CHECK_AFTER_SOURCES (Step.detach): the conjuncts that select the source nodes two hops "
+             "upstream of the detached step subtree *)")
+    o.append("Inductive cas_atom := CasSrcIsStep | CasSrcAttached | CasNoOtherAttachedConsumer | CasNoOtherConsumer.")
+    o.append(f"Definition cas_where : list cas_atom := {lst(cas)}.")
     o.append("(* file-state and node-detached triggers fire only when the value really changes *)")
     o.append("Definition trg_file_state_upd_on_change_only : bool := true.")
     o.append("Definition trg_node_detached_on_change_only : bool := true.")
